@@ -123,13 +123,7 @@ func c04(c *q.Ctx) {
 	if fu := c.Fn(led + "(*Ledger).FindUndoAndTodoBlocks"); fu != nil {
 		c.MapStoreKeys(fu, "newmap<map[string]bool>", []string{"ledger.(*Ledger).queryBlock(p0,p1,true)#0.Blockid", "ledger.(*Ledger).queryBlock(p0,p2,true)#0.Blockid", "ledger.(*Ledger).queryBlock(p0,phi{*queryBlock(p0,p1,true)#0*}.PreHash,true)#0.Blockid", "ledger.(*Ledger).queryBlock(p0,phi{*queryBlock(p0,p2,true)#0*}.PreHash,true)#0.Blockid"}, "a block is in the visited set as soon as it is in a result list: the fork point is the first block met twice")
 	}
-	sb := c.Fn(led + "(*Ledger).saveBlock")
-	if sb != nil {
-		keep := func(g q.Cond) bool { return strings.Contains(g.Canon, "p1.") }
-		c.Effect(sb, q.Eff{Spec: "Batch.Put", Arg: 0, Glob: "append(\"B\",p1.Blockid)", Exact: true, Keep: keep, Why: "header row always written", Rule: "K7"})
-		c.Effect(sb, q.Eff{Spec: "Batch.Put", Arg: 0, Glob: "append(\"ZH\",fmt.Sprintf(\"%020d\",[p1.Height]))", Req: []q.Cond{{Canon: "p1.InTrunk", Sense: true}}, Exact: true, Keep: keep, Why: "height-index row iff the block is in trunk", Rule: "K7"})
-		c.ArgIs(sb, "Batch.Put", -1, "p2", 2, "staged in the caller's batch")
-	}
+	saveBlockRows(c)
 	rb := c.Fn(led + "(*Ledger).removeBlocks")
 	if rb != nil {
 		cur := "phi{ledger.(*Ledger).fetchBlock(p0,loop.PreHash)#0|ledger.(*Ledger).fetchBlock(p0,p1)#0}"
@@ -243,4 +237,17 @@ func confirmedRowRemap(c *q.Ctx, cb *ssa.Function) {
 	}
 	c.Effect(cb, q.Eff{Spec: "Batch.Put", Arg: 0, Glob: "append(\"C\",p1.Transactions[].Txid)", Req: []q.Cond{{Canon: "p1.InTrunk", Sense: true}, {Canon: "ledger.(*Ledger).parallelCheckTx(*)#0[p1.Transactions[].Txid]", Sense: true}}, Exact: true, Keep: keepTx, Why: "a trunk block that carries an already-known transaction re-maps it to itself, whatever the old block's flag says", Rule: "K5"})
 	c.Effect(cb, q.Eff{Spec: "Batch.Put", Arg: 0, Glob: "append(\"C\",p1.Transactions[].Txid)", Req: []q.Cond{{Canon: "ledger.(*Ledger).parallelCheckTx(*)#0[p1.Transactions[].Txid]", Sense: false}}, Why: "a new transaction is recorded", Rule: "K6"})
+}
+
+// saveBlockRows (C04, C05): a saved block's header row and - iff it is in the trunk - its height-index row travel in
+// the caller's batch (a height row written beside the batch survives a failed or crashed operation).
+func saveBlockRows(c *q.Ctx) {
+	const led = "bcs/ledger/xledger/ledger::"
+	sb := c.Fn(led + "(*Ledger).saveBlock")
+	if sb != nil {
+		keep := func(g q.Cond) bool { return strings.Contains(g.Canon, "p1.") }
+		c.Effect(sb, q.Eff{Spec: "Batch.Put", Arg: 0, Glob: "append(\"B\",p1.Blockid)", Exact: true, Keep: keep, Why: "header row always written", Rule: "K7"})
+		c.Effect(sb, q.Eff{Spec: "Batch.Put", Arg: 0, Glob: "append(\"ZH\",fmt.Sprintf(\"%020d\",[p1.Height]))", Req: []q.Cond{{Canon: "p1.InTrunk", Sense: true}}, Exact: true, Keep: keep, Why: "height-index row iff the block is in trunk", Rule: "K7"})
+		c.ArgIs(sb, "Batch.Put", -1, "p2", 2, "staged in the caller's batch")
+	}
 }
